@@ -81,10 +81,13 @@ func (r *Run) decimal(x *smt.Term, o fmtOpts) []*smt.Term {
 		top = 19
 	}
 	for i := 0; i < top; i++ { // i = power of ten
-		d := r.freshVar(8, "dig")
-		r.assumeRaw(B.Ule(d, smt.Const(8, 9)))
+		// the digit CHARACTER is the fresh variable (so that interval facts '0'..'9' fold later
+		// comparisons with delimiters); its value is c - '0'
+		c := r.freshVar(8, "dig")
+		r.assumeRaw(B.And(B.Uge(c, smt.Const(8, '0')), B.Ule(c, smt.Const(8, '9'))))
+		d := B.Sub(c, smt.Const(8, '0'))
 		sum = B.Add(sum, B.Mul(B.ZExt(d, 64), smt.Const(64, pow10(i))))
-		ds[n-1-i] = B.Add(d, smt.Const(8, '0'))
+		ds[n-1-i] = c
 	}
 	r.assumeRaw(B.Eq(sum, target))
 	if r.decReg == nil {
